@@ -124,6 +124,18 @@ def replay_in_fresh_process(prop_id, path, hashseed="0"):
 def do_replay(prop, path):
     order.install()
     rec = json.load(open(path))
+    if "job" in rec and "scenario" not in rec:
+        res = prop.run_job(rec["job"])
+        want = rec["violation"].get("clause")
+        hits = [v for _, v in res.get("violations", []) if v.get("clause") == want]
+        print(f"REPLAY property={prop.ID} unit=job violations_in_job={res.get('nviolations', 0)} "
+              f"same_clause={len(hits)}")
+        if hits:
+            print("observed:", json.dumps(hits[0], sort_keys=True)[:2000])
+            print("JOB-REPLAY-VIOLATION")
+            print(f"VIOLATION property={prop.ID} replay={path}")
+            return EXIT_VIOLATION
+        return EXIT_OK
     r = prop.execute(rec["scenario"])
     v = r.get("violation")
     print(f"REPLAY property={prop.ID} digest={r.get('digest')} "
@@ -233,7 +245,7 @@ def main(prop, argv=None):
                     nviol += res.get("nviolations", 0)
                     for sv in res.get("violations", []):
                         if len(violations) < 400:
-                            violations.append(sv)
+                            violations.append((sv[0], sv[1], res["job"]))
                     if len(job_digests) < 400 and res.get("digest") is not None \
                             and res.get("wall", 0) < 20:
                         job_digests.append((res["job"], res["digest"]))
@@ -255,8 +267,11 @@ def main(prop, argv=None):
     # ---- classify, shrink, replay-verify --------------------------------------
     known = load_known(prop.ID)
     classes = {}
-    for scen, v in violations:
-        classes.setdefault(json.dumps(prop.vclass(scen, v), sort_keys=True), []).append((scen, v))
+    jobs_of = {}
+    for scen, v, job in violations:
+        ck = json.dumps(prop.vclass(scen, v), sort_keys=True)
+        classes.setdefault(ck, []).append((scen, v))
+        jobs_of.setdefault(ck, job)
     reported = []
     known_hits = {}
     exit_code = EXIT_OK
@@ -284,6 +299,23 @@ def main(prop, argv=None):
             json.dump(rec, fh, indent=1, sort_keys=True)
         rc, out = replay_in_fresh_process(prop.ID, path)
         if rc != EXIT_VIOLATION or "REPLAY-MATCHES-RECORD=yes" not in out:
+            # The single scenario does not fail alone in a fresh process. If the whole seeded job it
+            # came from fails the same way when re-run from a fresh process, the outcome depends on
+            # what the process executed before (state shared between functions / worlds): that is
+            # reported with the job as the replay unit.
+            jpath = path.replace(".json", "-job.json")
+            jrec = {"property": prop.ID, "verif_seed": seed, "tier": tier, "job": jobs_of[ck],
+                    "violation": rec["violation"], "signature": sig,
+                    "note": "replay unit is the whole seeded job: the scenario alone does not fail in a "
+                            "fresh process, i.e. the outcome depends on earlier scenarios of the process"}
+            with open(jpath, "w") as fh:
+                json.dump(jrec, fh, indent=1, sort_keys=True)
+            rc2, out2 = replay_in_fresh_process(prop.ID, jpath)
+            if rc2 == EXIT_VIOLATION and "JOB-REPLAY-VIOLATION" in out2:
+                sig = dict(sig)
+                sig["replay_unit"] = "job"
+                reported.append((jpath, sig, rec["violation"], len(items)))
+                continue
             print(f"HARNESS-ERROR: violation does not replay in a fresh process: {path}\n{out[-1500:]}")
             exit_code = EXIT_HARNESS
             continue
